@@ -10,7 +10,7 @@ VARIABLES hist, scn, pos, npert, turn
 gvars == <<vars, hist, scn, pos, npert, turn>>
 
 GenEnv == {"PALOMA_FF_PIGEON_STATUS_UPDATE", "PIGEON_HEALTHCHECK_PORT"}
-GenQueries == {"pick", "assign", "simulate", "relay", "snapshot", "snapbuild", "evidence", "uptime", "chaininfojail", "history"}
+GenQueries == {"pick", "assign", "simulate", "relay", "snapshot", "snapbuild", "evidence", "uptime", "chaininfojail", "history", "prunejail"}
 NoBlocks == {<<>>}
 GateVersions == {NoVersion}
 
@@ -38,11 +38,15 @@ Scn == <<
 StatusIdx == SelectSeq([i \in 1..Len(Cat) |-> i], LAMBDA i : Cat[i][1] = "AddStatusUpdate")
 CSeq == <<"negative", "zero", "one", "huge63", "huge64", "huge255", "empty", "overlong", "malformed">>
 HostileOf(i) == LET cl == SelectSeq(CSeq, LAMBDA c : c \in ClassesOf(Cat[i][3])) IN [k \in DOMAIN cl |-> <<Cat[i][1], Cat[i][2], cl[k]>>]
-NScn == Len(Scn) + 1
-ScnLen(s) == IF s <= Len(Scn) THEN Len(Scn[s]) ELSE Len(StatusIdx)
-ScnTxs(s, k) == IF s <= Len(Scn) THEN Scn[s][k] ELSE <<"status">>
-ScnHostile(s, k) == IF s <= Len(Scn) THEN <<>> ELSE HostileOf(StatusIdx[k])
-Start == <<280, 290, 280, 296, 280>>
+\* 6: a world with stakes 40/24/24/12: a delivery is reported, only validator 0 (40 %) provides evidence; whom the pruning of that
+\*    message may jail (25 % protection of valset.Jail) depends on the order in which the silent validators are taken
+Uneven == << <<"execjob", "deployuser">>, <<"sign">>, <<"estimate">>, <<"sign">>, <<"relayerr">>, <<"attest0">>, <<"status">>, <<"execjob">> >>
+NScn == Len(Scn) + 2
+ScnLen(s) == IF s <= Len(Scn) THEN Len(Scn[s]) ELSE IF s = Len(Scn) + 1 THEN Len(StatusIdx) ELSE Len(Uneven)
+ScnTxs(s, k) == IF s <= Len(Scn) THEN Scn[s][k] ELSE IF s = Len(Scn) + 1 THEN <<"status">> ELSE Uneven[k]
+ScnHostile(s, k) == IF s = Len(Scn) + 1 THEN HostileOf(StatusIdx[k]) ELSE <<>>
+WorldOf(s) == IF s = Len(Scn) + 2 THEN "uneven" ELSE "std"
+Start == <<280, 290, 280, 296, 280, 280>>
 
 StepOf(l) == CASE l.act = "Restart"  -> [act |-> "Restart", args |-> [n |-> 0]]
                [] l.act = "Query"    -> [act |-> "Query", args |-> [k |-> l.arg]]
@@ -51,7 +55,7 @@ StepOf(l) == CASE l.act = "Restart"  -> [act |-> "Restart", args |-> [n |-> 0]]
 
 GInit == /\ \E s \in Scenarios :
               /\ scn = s /\ height = Start[s] /\ txlog = EmptyLog(Start[s] - Base)
-              /\ hist = <<[act |-> "Init", args |-> [scn |-> s, start |-> Start[s]]]>>
+              /\ hist = <<[act |-> "Init", args |-> [scn |-> s, start |-> Start[s], world |-> WorldOf(s)]]>>
          /\ queued = "idle" /\ gate = NoGate /\ halted = FALSE /\ env = {} /\ restarts = 0 /\ nqueries = 0
          /\ last = Rec("Init", <<>>) /\ pos = 0 /\ npert = 0 /\ turn = "blk"
 
